@@ -284,11 +284,14 @@ CanonField(env, log, id, p, fld) ==
 CanonInst(env, log, id) ==
   LET h == Hdr(log, id)
       pr == env.g.prods[ProdIdx(env.g, h.p)]
+      \* (only ParserMachine's partial results contain nodes whose body failed: Pos is set, EndPos and Tokens are not)
+      failed == "failed" \in DOMAIN h /\ h.failed
   IN h.p \o "{" \o JoinSeq([i \in 1..Len(pr.fields) |->
         pr.fields[i].name \o "=" \o
           (IF pr.fields[i].kind = "pos" THEN
-              (IF pr.fields[i].name = "Pos" THEN "pos" \o NatStr(h.pos) ELSE "pos" \o NatStr(h.end))
+              (IF pr.fields[i].name = "Pos" THEN "pos" \o NatStr(h.pos) ELSE IF failed THEN "pos0" ELSE "pos" \o NatStr(h.end))
            ELSE IF pr.fields[i].name = "Tokens" /\ pr.fields[i].kind = "tokens" THEN
+              IF failed THEN "nil" ELSE
               "[" \o JoinSeq([j \in 1..(h.end - h.start) |-> "tok" \o NatStr(h.start + j - 1)], 1, ",") \o "]"
            ELSE CanonField(env, log, id, h.p, pr.fields[i]))], 1, ";") \o "}"
 
